@@ -17,6 +17,7 @@ package cache
 import (
 	"context"
 	"fmt"
+	"regexp"
 	"sort"
 	"strings"
 	"time"
@@ -202,11 +203,28 @@ func (c *localCache) ReadCh(ctx context.Context, name string, opts *Opts, paths 
 		opts = &Opts{}
 	}
 	outCh := make(chan *Update, len(paths))
+	// for the config and state stores the cache compiles the joined path elements into a regular expression ("*"
+	// being its wildcard): key values like a[b], a+b or 1.1.1.1 are meant literally. (The intended store is read
+	// by literal prefix.)
+	quoted := paths
+	if st := getStore(opts.Store); st == cache.StoreConfig || st == cache.StoreState {
+		quoted = make([][]string, 0, len(paths))
+		for _, p := range paths {
+			qp := make([]string, 0, len(p))
+			for _, e := range p {
+				if e != "*" {
+					e = regexp.QuoteMeta(e)
+				}
+				qp = append(qp, e)
+			}
+			quoted = append(quoted, qp)
+		}
+	}
 	go func() {
 		defer close(outCh)
 		ch, err := c.c.ReadValue(ctx, name, &cache.Opts{
 			Store:         getStore(opts.Store),
-			Path:          paths,
+			Path:          quoted,
 			Owner:         opts.Owner,
 			Priority:      opts.Priority,
 			PriorityCount: opts.PriorityCount,
